@@ -57,6 +57,9 @@ class ListTransformer(converter.Base):
 
   def visit_List(self, node):
     node = self.generic_visit(node)
+    if not isinstance(node.ctx, ast.Load):
+      # A list of targets, `[a, b] = pair`, binds names: it builds no list.
+      return node
     template = """
       ag__.new_list(elements)
     """
